@@ -7,24 +7,22 @@ TRUSTED = [
     "statements in lean/QuinnModel/Props/*.lean are faithful renderings of properties.jsonl (human review)",
 ]
 
-# component -> (quick cases, thorough cases, max ops per case)
-MICRO = {
-    'varint': (1500, 40000, 40),
-    'pn': (1500, 40000, 40),
-    'dedup': (2000, 50000, 60),
-}
 
-PROPS = {
-    'C10': dict(
-        micro=['varint', 'pn'],
-        sim=[],
-        modelled="varint.rs (VarInt::{from_u64,size,encode,decode}), packet.rs PacketNumber::{new,encode,decode,expand}",
-        not_modelled="frames, headers, transport parameters, tokens: listed as growth in DESIGN 5.10",
-    ),
-    'C04': dict(
-        micro=['dedup'],
-        sim=[],
-        modelled="spaces.rs Dedup::insert (u128 window as Nat mod 2^128)",
-        not_modelled="AEAD (ideal by hypothesis), receive pipeline glue in Connection::handle_packet",
-    ),
-}
+# component -> (quick cases, thorough cases, max ops per case); property -> config.
+# Both are assembled from tools/props.d/*.py: each plugin may define MICRO (dict) and PROPS (dict);
+# PROPS entries for the same property are merged (lists concatenated, strings joined with '; ').
+import glob, importlib.util, os
+MICRO, PROPS = {}, {}
+for _p in sorted(glob.glob(os.path.join(os.path.dirname(__file__), 'props.d', '*.py'))):
+    _s = importlib.util.spec_from_file_location('props_' + os.path.basename(_p)[:-3], _p)
+    _m = importlib.util.module_from_spec(_s); _s.loader.exec_module(_m)
+    MICRO.update(getattr(_m, 'MICRO', {}))
+    for _k, _v in getattr(_m, 'PROPS', {}).items():
+        _d = PROPS.setdefault(_k, dict(micro=[], sim=[], modelled='', not_modelled=''))
+        for _f, _x in _v.items():
+            if isinstance(_x, list):
+                _d[_f] = _d.get(_f, []) + [y for y in _x if y not in _d.get(_f, [])]
+            elif isinstance(_x, str):
+                _d[_f] = (_d.get(_f, '') + '; ' + _x).strip('; ')
+            else:
+                _d[_f] = _x
